@@ -823,10 +823,12 @@ SYSTEMS = [
     LLEGrid('c15.lle.act.pe', 'pe', 'activity'),
     LLEGrid('c15.lle.grid.de', 'de'),
     LLEGrid('c15.lle.grid.shgo', 'shgo'),
-    LLEHist('c15.lle.hist.pe', 'pe', ('WOE',), ('WOE', 'SET', 'WBH', 'WA'), 4, 4, flags_q=(True,), flags_t=(True,), mode='reuse', tops_q=('Octanol',)),
-    # 1-4 earlier calls + probe (the property's longest history) on one family; the quick slice is its depth-3 prefix without top chemical
-    LLEHist('c15.lle.hist5.pe', 'pe', ('WOE',), ('WOE',), 3, 5, flags_q=(True,), flags_t=(True,), mode='reuse', tops_q=(None,)),
-    LLEHist('c15.lle.hist.uc.pe', 'pe', ('SET',), ('WOE', 'SET'), 3, 4, flags_q=(True, False), flags_t=(True, False), mode='reuse'),
+    # A: 3 compositions x 3 T, reuse allowed in the history; quick = depth-3 slice of one configuration
+    LLEHist('c15.lle.hist.pe', 'pe', ('WOE',), ('WOE', 'SET'), 3, 4, flags_q=(True,), flags_t=(True,), mode='reuse', tops_q=('Octanol',)),
+    # B: 1-4 earlier calls + probe (the property's longest history) over 2 compositions x 3 T on one family
+    LLEHist('c15.lle.hist5.pe', 'pe', ('WOE',), ('WOE',), 4, 5, nC=2, flags_q=(True,), flags_t=(True,), mode='reuse', tops_q=('Octanol',)),
+    # C: histories that mix calls with and without reuse, and families whose chemical set changes
+    LLEHist('c15.lle.hist.uc.pe', 'pe', ('SET',), ('WOE', 'SET', 'WBH', 'WA'), 3, 3, flags_q=(True, False), flags_t=(True, False), mode='reuse', tops_q=('Octanol',)),
     LLEHist('c15.lle.fresh.pe', 'pe', ('WOE', 'SET'), ('WOE', 'SET', 'WBH', 'WA'), 3, 3, flags_q=(True, False), mode='fresh'),
     LLEHist('c15.lle.hist.de', 'de', ('WOE',), ('WOE', 'WA'), 2, 2, nT=2, nC=2, nT_t=3, nC_t=3, flags_q=(True,), flags_t=(True,)),
     LLEHist('c15.lle.hist.shgo', 'shgo', ('WOE',), ('WOE',), 2, 2, nT=2, nC=1, nT_t=2, nC_t=2, flags_q=(True,), flags_t=(True,), tops=(None,)),
